@@ -242,10 +242,12 @@ def callP (never d : Nat) (w : World) (n now : Nat) : Option World :=
   | none => none
   | some w2 => some { w2 with f := upd w2.f n { (w2.f n) with valid := false } }
 
-/-- the last three statements of `GetPulseTimeAux`: recompute the aggregate, re-file in the parent, lower `min` -/
+/-- the last three statements of `GetPulseTimeAux`: recompute the aggregate, re-file in the parent, lower `min`.
+    A node whose request does not stand at this point (it was invalidated again during the second pass) gets the
+    aggregate time 0 = "visit me as soon as possible": the next `PulseAux` puts it back into NEEDSRECALC. -/
 def gptFinish (never d : Nat) (w : World) (n mn : Nat) : Option (World × Nat) :=
   let old := (w.f n).agg
-  let a := min (w.f n).myTime (firstSchedAgg never w.f n)
+  let a := min (if (w.f n).valid then (w.f n).myTime else 0) (firstSchedAgg never w.f n)
   let f3 := upd w.f n { (w.f n) with agg := a }
   let r := match (f3 n).parent with
     | some p =>
@@ -258,7 +260,8 @@ def gptFinish (never d : Nat) (w : World) (n mn : Nat) : Option (World × Nat) :
   | none => none
 
 mutual
-/-- `PulseNode::GetPulseTimeAux(now, min)` on node `n` -/
+/-- `PulseNode::GetPulseTimeAux(now, min)` on node `n`: `for (pass = 0; pass < 2; pass++)` — ask the node if its request
+    does not stand, recalculate the needy children; a second pass only if the request was invalidated during the first -/
 def gptAux (never d : Nat) : Nat → World → Nat → Nat → Nat → Option (World × Nat)
   | 0, _, _, _, _ => none
   | k+1, w, n, now, mn =>
@@ -267,7 +270,15 @@ def gptAux (never d : Nat) : Nat → World → Nat → Nat → Nat → Option (W
     | some w1 =>
       match gptLoop never d k w1 n now mn with
       | none => none
-      | some (w2, mn2) => gptFinish never d w2 n mn2
+      | some (w2, mn2) =>
+        if (w2.f n).valid then gptFinish never d w2 n mn2      -- `else if (pass > 0) break;`
+        else
+          match callG never d w2 n now with
+          | none => none
+          | some w3 =>
+            match gptLoop never d k w3 n now mn2 with
+            | none => none
+            | some (w4, mn4) => gptFinish never d w4 n mn4
 /-- `while(firstNeedy) firstNeedy->GetPulseTimeAux(now, min)` -/
 def gptLoop (never d : Nat) : Nat → World → Nat → Nat → Nat → Option (World × Nat)
   | 0, _, _, _, _ => none
